@@ -134,6 +134,15 @@ pub fn run(id: &str, tier: &str) -> i32 {
             report.absorb(r);
         }
     }
+    // 2b. frozen sample of real-world library files (cannot be executed meaningfully, can be rewritten / parsed / erased)
+    if matches!(id, "C02" | "C03" | "C04" | "C05" | "C06" | "C08" | "C09" | "C12" | "C15") && std::env::var("VERIF_NO_CORPUS").is_err() {
+        let cases = corpus_cases(if tier == "thorough" { usize::MAX } else { 150 });
+        if !cases.is_empty() {
+            report.stats.extra.insert("corpus_files".into(), serde_json::json!(cases.len()));
+            let r = engine::run_explicit(plans[0].check.as_ref(), cases, threads);
+            report.absorb(r);
+        }
+    }
     // 3. generated cases
     let only: Option<usize> = std::env::var("VERIF_PLAN").ok().and_then(|s| s.parse().ok());
     for (i, plan) in plans.iter().enumerate() {
@@ -146,4 +155,36 @@ pub fn run(id: &str, tier: &str) -> i32 {
         report.absorb(r);
     }
     report.finish()
+}
+
+/// (file, config) cases from /verif/corpus/real
+fn corpus_cases(limit: usize) -> Vec<Value> {
+    let dir = format!("{}/corpus/real", engine::VERIF_ROOT);
+    let mut names: Vec<String> = std::fs::read_dir(&dir)
+        .map(|rd| rd.filter_map(|e| e.ok()).map(|e| e.file_name().to_string_lossy().to_string()).filter(|n| n.ends_with("js")).collect())
+        .unwrap_or_default();
+    names.sort();
+    let full = serde_json::json!({
+        "localVarPrefix": "test", "telemetryVerbosity": "DEBUG", "comments": true,
+        "csiMethods": [
+            {"src": "plusOperator", "operator": true}, {"src": "tplOperator", "operator": true},
+            {"src": "substring"}, {"src": "trim"}, {"src": "trimStart"}, {"src": "trimEnd"}, {"src": "concat", "dst": "stringConcat"}, {"src": "replace"},
+            {"src": "replaceAll"}, {"src": "slice"}, {"src": "padStart"}, {"src": "padEnd"}, {"src": "repeat"}, {"src": "toLowerCase"}, {"src": "toUpperCase"},
+            {"src": "join"}, {"src": "split"}, {"src": "push"}, {"src": "require", "allowedWithoutCallee": true}
+        ]
+    });
+    let partial = serde_json::json!({
+        "localVarPrefix": "abcdef", "telemetryVerbosity": "INFORMATION",
+        "csiMethods": [{"src": "tplOperator", "operator": true}, {"src": "concat"}, {"src": "slice", "dst": "shared"}, {"src": "join", "dst": "shared"}]
+    });
+    let mut out = vec![];
+    for (i, n) in names.iter().enumerate() {
+        if out.len() >= limit {
+            break;
+        }
+        let Ok(src) = std::fs::read_to_string(format!("{dir}/{n}")) else { continue };
+        let cfg = if i % 3 == 2 { partial.clone() } else { full.clone() };
+        out.push(serde_json::json!({"src": src, "cfg": cfg, "file": format!("/app/node_modules/pkg/{n}"), "tags": ["corpus"], "corpus": n}));
+    }
+    out
 }
